@@ -208,6 +208,17 @@ func runC07(p *core.Program, r *core.Report) {
 		c.ob("AG1", "cache."+w, "writes node links", "-", ok, "next/prev links are written by a function that is neither a list primitive (moveAfter, addAfter, remove, newLRUList) nor a helper called only from them (the shape rule SH1 covers exactly those)")
 	}
 
+	// who writes a node's key and value: the key only where the node is created, the
+	// value there and in Add's overwrite of an existing entry
+	for _, f := range all {
+		for _, st := range fieldStores([]*ssa.Function{f}, "node", "key") {
+			c.ob("AG1", p.FuncName(f), "writes node.key", p.InstrPos(st), f == lf["addAfter"], "a node's key is written outside addAfter: the map entry and the list node no longer agree on the key")
+		}
+		for _, st := range fieldStores([]*ssa.Function{f}, "node", "value") {
+			c.ob("AG1", p.FuncName(f), "writes node.value", p.InstrPos(st), f == lf["addAfter"] || f == m["Add"], "a node's value is written outside addAfter and Add")
+		}
+	}
+
 	// ---- accessor ends (AG7 table)
 	pc := func() *pathCtx { return newPathCtx(p) }
 	endOf := func(fn *ssa.Function, want string) {
